@@ -5,7 +5,7 @@ import re
 import itertools
 from .. import model, sweep, codecs, cli
 from ..runner import Result, scratch
-from ..bridge import T, build, quiet, build_via_export
+from ..bridge import T, build, quiet, build_via_export, build_any
 
 from trees import treeanalysis, treeoutput, grammar, grammaranalysis
 
@@ -22,7 +22,8 @@ def pool():
     out = []
     for i, sh in enumerate(shs):
         n = len(model.leaves(sh))
-        out.append(model.simple_mt(sh, sid=i + 1, pos=[['T0', 'T1', 'T2', 'VROOT', 'EMPTY', '--'][(i + j) % 6] for j in range(n)]))
+        out.append(model.simple_mt(sh, sid=i + 1, pos=[['T0', 'T1', 'T2', 'VROOT', 'EMPTY', '--'][(i + j) % 6] for j in range(n)],
+                                   words=[['%', 'w', '%5', '#1', '5%'][(i + 2 * j) % 5] for j in range(n)]))
     return out
 
 
@@ -60,7 +61,7 @@ def check_tree(mtj, order=None):
                     'detail': '%s: expected %r, got %r on %s' % (where, exp, got, model.mt_str(mt.root)),
                     'what': where + ' disagrees with the set-based definition'})
     def mk():
-        return build_via_export(mt, scratch()) if order == 'export' else build(mt, child_order=order)
+        return build_any(mt, order)
     try:
         t = mk()
         degs = []
@@ -314,7 +315,7 @@ def run_chunk(chunk):
         for sh, k in sweep.iter_shapes(chunk):
             # labels: unique per node, or all the same (so that one bare rule occurs continuous and discontinuous)
             mt = model.simple_mt(sh) if res.evals % 3 else model.simple_mt(sh, labels='A', pos=['x'] * len(model.leaves(sh)))
-            vs = check_tree(mt.to_json(), [None, 'rev', 'export'][res.evals % 3 if res.evals % 2 else (res.evals // 2) % 3])
+            vs = check_tree(mt.to_json(), [None, 'rev', 'export', 'written'][res.evals % 4])
             res.evals += 1
             d = model.mt_tree_gap_degree(mt.root)
             if d > 0:
